@@ -201,8 +201,10 @@ static void ref_reqline_parse(const ref_u8 *line, size_t len, struct ref_reqline
 /* ---- status-line -------------------------------------------------------------
  * status-line = HTTP-version SP status-code SP [ reason-phrase ]
  * status-code = 3DIGIT ; reason-phrase = 1*( HTAB / SP / VCHAR / obs-text )
- * permitted leniency: the SP after the status code may be missing when the
- * reason phrase is empty (ubiquitous; RFC 9112 4 asks senders for it only). */
+ * permitted leniency (wellformed but not strict): the SP after the status code
+ * may be missing when the reason phrase is empty (ubiquitous), and the reason
+ * phrase may contain control characters other than NUL / LF ("a client SHOULD
+ * ignore the reason-phrase content"). */
 struct ref_statusline {
 	int wellformed; /* incl. the lenient form without trailing SP */
 	int strict;
@@ -232,13 +234,18 @@ static void ref_statusline_parse(const ref_u8 *line, size_t len, struct ref_stat
 	if (line[12] != ' ')
 		return;
 	r->r_off = 13; r->r_len = len - 13;
-	for (i = 13; i < len; i++) {
-		ref_u8 c = line[i];
-		if (!(c == '\t' || c == ' ' || (c > 0x20 && c != 0x7f)))
-			return;
+	{
+		int grammatical = 1;
+		for (i = 13; i < REF_MAXLINE && i < len; i++) {
+			ref_u8 c = line[i];
+			if (c == '\0' || c == '\n')
+				return; /* never inside a line */
+			if (!(c == '\t' || c == ' ' || (c > 0x20 && c != 0x7f)))
+				grammatical = 0; /* other control characters: not grammatical, tolerated by lenient recipients */
+		}
+		r->wellformed = 1;
+		r->strict = grammatical;
 	}
-	r->wellformed = 1;
-	r->strict = 1;
 }
 
 /* ---- field-line --------------------------------------------------------------
@@ -432,7 +439,7 @@ static unsigned ref_request_body(const struct ref_field *f, size_t nf, int major
 	int n_te = 0, te_class = 0, te_all_only_chunked = 1;
 	int n_cl = 0, cl_ok = 1;
 	unsigned long long cl = 0, v;
-	for (i = 0; i < nf; i++) {
+	for (i = 0; i < REF_MAXLINES && i < nf; i++) {
 		if (ref_eq_nocase(f[i].name, f[i].name_len, "Transfer-Encoding")) {
 			int c = ref_te_classify(f[i].value, f[i].value_len);
 			n_te++;
@@ -695,5 +702,56 @@ static int ref_safe_target(const ref_u8 *p, size_t n)
 	for (i = 0; i < REF_MAXLINE && i < n; i++)
 		if (p[i] < 0x20 || p[i] == 0x7f) return 0;
 	return 1;
+}
+/* ---- message body length of a RESPONSE (RFC 9112 6.3) --------------------------------
+ *  1. response to HEAD, 1xx, 204, 304: no body, whatever the header fields say
+ *  2. 2xx response to CONNECT: tunnel, no body
+ *  3. Transfer-Encoding present: final coding chunked -> chunked framing;
+ *     otherwise the body ends when the server closes the connection
+ *     (Transfer-Encoding overrides Content-Length)
+ *  4. invalid Content-Length (and no Transfer-Encoding): unrecoverable error
+ *  5. valid Content-Length: that many octets
+ *  8. otherwise: until the server closes the connection
+ * Output: bit set of permitted outcomes (REF_BODY_* above plus REF_BODY_CLOSE). */
+#define REF_BODY_CLOSE 16
+static int ref_response_has_no_body(int code, unsigned request_method)
+{
+	if (request_method == REF_REQ_HEAD) return 1;
+	if ((code >= 100 && code < 200) || code == 204 || code == 304) return 1;
+	if (request_method == REF_REQ_CONNECT && code >= 200 && code < 300) return 1;
+	return 0;
+}
+static unsigned ref_response_body(const struct ref_field *f, size_t nf, int code, unsigned request_method, unsigned long long *length)
+{
+	size_t i;
+	int n_te = 0, te_class = 0, n_cl = 0, cl_ok = 1;
+	unsigned long long cl = 0, v;
+	*length = 0;
+	if (ref_response_has_no_body(code, request_method))
+		return REF_BODY_NONE;
+	for (i = 0; i < REF_MAXLINES && i < nf; i++) {
+		if (ref_eq_nocase(f[i].name, f[i].name_len, "Transfer-Encoding")) {
+			n_te++;
+			te_class = ref_te_classify(f[i].value, f[i].value_len);
+		} else if (ref_eq_nocase(f[i].name, f[i].name_len, "Content-Length")) {
+			if (!ref_content_length(f[i].value, f[i].value_len, &v)) cl_ok = 0;
+			else if (n_cl > 0 && v != cl) cl_ok = 0;
+			else cl = v;
+			n_cl++;
+		}
+	}
+	if (n_te > 0) {
+		if (te_class == REF_TE_OTHER)
+			return REF_BODY_CLOSE;
+		/* final coding chunked; other codings in front of it cannot be decoded by evhttp: failing the
+		 * response is permitted then, framing it by Content-Length or as empty is not */
+		return (n_te == 1 && te_class == REF_TE_ONLY_CHUNKED) ? REF_BODY_CHUNKED : (REF_BODY_CHUNKED | REF_BODY_REJECT);
+	}
+	if (n_cl > 0) {
+		if (!cl_ok) return REF_BODY_REJECT;
+		*length = cl;
+		return n_cl == 1 ? REF_BODY_LENGTH : (REF_BODY_LENGTH | REF_BODY_REJECT);
+	}
+	return REF_BODY_CLOSE;
 }
 #endif
